@@ -274,21 +274,23 @@ def squeue_inputs(rng, count):
     ids = ["100", "101", "102", "7"]
     # every state for the queried id, alone and among others, in every whitespace variant
     for st in STATES:
-        for w in range(len(WS)):
+        for w in range(2 * len(WS)):         # each whitespace rendering with and without a final newline
             yield [["100", st]], "100", w
             yield [["101", "RUNNING"], ["100", st]], "100", w
     yield [], "100", 0
     for _ in range(count):
         n = rng.randint(0, 3)
         rows = [[i, STATES[rng.randrange(len(STATES))]] for i in rng.sample(ids, n)]
-        yield rows, ids[rng.randrange(4)], rng.randrange(len(WS))
+        yield rows, ids[rng.randrange(4)], rng.randrange(2 * len(WS))
 
 
 def run_squeue(rows, query, w):
     from jade.hpc.slurm_manager import SlurmManager
     from jade.hpc.hpc_submitter import AsyncHpcSubmitter, HpcStatusCollector
-    pre, mid, post = WS[w]
+    pre, mid, post = WS[w % len(WS)]
     text = "".join(f"{pre}{i}{mid}{st}{post}\n" for i, st in rows)
+    if w >= len(WS) and text.endswith("\n"):
+        text = text[:-1]                 # the last record without a final newline (a wrapper or cache that strips it)
     parsed = SlurmManager._get_statuses_from_output(text)
 
     class Mgr:
@@ -492,6 +494,15 @@ def run_launch(sym_cmd, name, appname, appout, rc):
         Popen = P
     orig = acc.subprocess
     acc.subprocess = Sub
+    # every third launch happens inside another JADE job (a job whose command runs a JADE submission, or a batch started
+    # by sbatch --export=ALL from a shell that has the variables): the launcher's own environment already carries
+    # JADE_JOB_NAME / JADE_RUNTIME_OUTPUT of the outer job
+    inherited = (len(sym_cmd) + rc) % 3 == 0
+    saved = {k: os.environ.get(k) for k in ("JADE_JOB_NAME", "JADE_RUNTIME_OUTPUT")}
+    if inherited:
+        os.environ["JADE_JOB_NAME"] = "outer_workflow"
+        os.environ["JADE_RUNTIME_OUTPUT"] = "/outer/output"
+    rec["inherited"] = inherited
     try:
         cli = GenericCommandExecution.generate_command(job, os.path.join(out, "job-outputs"), None)
         cmd = acc.AsyncCliCommand(job, cli, out, 3, True, "555")
@@ -517,6 +528,11 @@ def run_launch(sym_cmd, name, appname, appout, rc):
                 pass
     finally:
         acc.subprocess = orig
+        for k_, v_ in saved.items():
+            if v_ is None:
+                os.environ.pop(k_, None)
+            else:
+                os.environ[k_] = v_
         shutil.rmtree(base, ignore_errors=True)
     return rec
 
